@@ -188,6 +188,17 @@ def observe(case):
                     out['genome_iv'] = [x.to_string().encode('latin1').hex() for x in s[gi]]
                 except Exception as e:
                     out['genome_iv'] = 'error:' + type(e).__name__ + str(e)[:80]
+                # the same rows as a plain Interval table (text names) on a genome opened with the DEFAULT filter
+                # (names containing '_' are ignored by the genome but still fetchable from the sequence)
+                try:
+                    g = bnp.Genome.from_file(path)
+                    s = g.read_sequence()
+                    iv2 = Interval.from_entry_tuples([(case['recs'][n][0].split()[0], a, b) for n, a, b in sub])
+                    r1 = [x.to_string().encode('latin1').hex() for x in s[iv2]]
+                    r2 = [x.to_string().encode('latin1').hex() for x in s.extract_intervals(iv2)]
+                    out['genome_iv_plain'] = r1 if r1 == r2 else 'error:two routes differ'
+                except Exception as e:
+                    out['genome_iv_plain'] = 'error:' + type(e).__name__ + str(e)[:80]
         # the same path, another file: records in reverse order, index rebuilt by the library, same process
         if len(case['recs']) >= 2 and not case['supplied'] and not case.get('chunk_k'):
             try:
@@ -321,6 +332,10 @@ def to_coq(case, o):
         g = o['genome_iv']
         for k, (n, a, b) in enumerate(sub):
             giv.append((n, a, b, g[k] if isinstance(g, list) and k < len(g) else 'ff'))
+        g2 = o.get('genome_iv_plain')
+        if g2 is not None:
+            for k, (n, a, b) in enumerate(sub):
+                giv.append((n, a, b, g2[k] if isinstance(g2, list) and len(g2) == len(sub) else 'ff'))
     ro_l, ro_c = [], []
     if isinstance(o, dict) and 'reopen' in o:
         r = o['reopen']
